@@ -349,11 +349,14 @@ func runCompScenario(sc CompScenario) compResult {
 			running := children[c].running && children[c].active == 1
 			children[c].mu.Unlock()
 			if running {
-				select {
-				case children[c].failCh <- o:
-					rec.add("FX%d:%s", c, o)
-				default:
-				}
+				rec.addIf(func() bool {
+					select {
+					case children[c].failCh <- o:
+						return true
+					default:
+						return false
+					}
+				}, "FX%d:%s", c, o)
 			}
 		}
 	}
